@@ -541,8 +541,8 @@ type SourceInfo struct {
 	Imports map[impSpec]bool
 	Decls   []string
 	Used    map[impSpec]bool // imports the declarations refer to (they must be in the output)
-	Known   string // key of a known finding this file triggers ("" = none)
-	Skip    string // reason the file is outside the domain ("" = in domain)
+	Known   string           // key of a known finding this file triggers ("" = none)
+	Skip    string           // reason the file is outside the domain ("" = in domain)
 }
 
 func realImportName(path string) string {
@@ -788,6 +788,21 @@ func cmdCorpus(args []string) {
 		r := newRand(5151)
 		r.Shuffle(len(goroot), func(i, j int) { goroot[i], goroot[j] = goroot[j], goroot[i] })
 		goroot = goroot[:n]
+		sort.Strings(goroot)
+	}
+	// files named by known findings are always replayed, so that each listed finding is reproduced on every run
+	if always := os.Getenv("VERIF_CORPUS_ALWAYS"); always != "" {
+		root, _ := filepath.EvalSymlinks(filepath.Join(build.Default.GOROOT, "src"))
+		have := map[string]bool{}
+		for _, f := range goroot {
+			have[f] = true
+		}
+		for _, rel := range strings.Split(always, ",") {
+			f := filepath.Join(root, strings.TrimPrefix(rel, "GOROOT/src/"))
+			if _, err := os.Stat(f); err == nil && !have[f] {
+				goroot = append(goroot, f)
+			}
+		}
 		sort.Strings(goroot)
 	}
 	files = append(files, goroot...)
